@@ -1,1 +1,16 @@
-/- C06 — theorems (placeholder until the property is built). -/
+/- C06 — theorems (work in progress). -/
+import PandoraModel.Model.Refinement
+import PandoraModel.Properties.Flags
+
+namespace Pandora.C06
+open Pandora Pandora.Refinement
+
+theorem clamp1_le (x : Rat) : clamp1 x ≤ 1 := by
+  unfold clamp1
+  split
+  · decide +kernel
+  · split
+    · exact Rat.le_refl
+    · rename_i h1 h2; exact Rat.not_lt.mp h2
+
+end Pandora.C06
